@@ -438,17 +438,29 @@ def run_history_property(pid, tier, seed, rule, level='exploration', extra_cov=N
     with ThreadPoolExecutor(JOBS) as ex:
         results = list(ex.map(lambda c: run_shard(built[c['name']][0], n, cases, maxlen, shard_seed(seed, c['name'], pid), outdir, c['name'], guards), runnable))
 
-    # failures: soft failures are already shrunk; crashed shards are re-run isolated so rapidcheck can shrink them
+    # failures: soft failures are already shrunk; crashed shards are re-run isolated so rapidcheck can shrink them.
+    # The isolated re-runs go in parallel, and only for the first 8 crashed configurations: when a change breaks nearly
+    # every configuration (and each shrink step may cost a child its full alarm time) the remaining ones are reported
+    # with the unshrunk program the crashing process left behind.
+    crashed = [(c, r) for c, r in zip(runnable, results) if r['rc'] != 0 and r['replay'] is None]
+    iso = {}
+    if crashed:
+        with ThreadPoolExecutor(JOBS) as ex:
+            outs = list(ex.map(lambda cr: run_shard(built[cr[0]['name']][0], n, cases, maxlen, shard_seed(seed, cr[0]['name'], pid), outdir, cr[0]['name'] + '.iso', guards, isolate=True), crashed[:8]))
+        iso = {cr[0]['name']: o for cr, o in zip(crashed[:8], outs)}
     for c, r in zip(runnable, results):
         if r['rc'] == 0:
             continue
         binp = built[c['name']][0]
         rep = r['replay']
         if rep is None:
-            r2 = run_shard(binp, n, cases, maxlen, shard_seed(seed, c['name'], pid), outdir, c['name'] + '.iso', guards, isolate=True)
-            rep = r2['replay'] or r2['crash'] or r['crash']
-            if r2['stats'] and not r['stats']:
-                r['stats'] = r2['stats']
+            r2 = iso.get(c['name'])
+            if r2 is not None:
+                rep = r2['replay'] or r2['crash'] or r['crash']
+                if r2['stats'] and not r['stats']:
+                    r['stats'] = r2['stats']
+            else:
+                rep = r['crash']
         if rep is None:
             p = os.path.join(outdir, 'unreproduced_%s.log' % c['name'])
             with open(p, 'w') as f:
